@@ -205,7 +205,7 @@ func cmdMalformed(n int) {
 		fieldOffsets(t, enc, 0, ver, &offs)
 		// truncation at every offset
 		for k := 0; k < len(enc); k++ {
-			if light && !(k == len(enc)-1 || (len(offs) > 1 && k == offs[1][0]) || (len(offs) > 2 && k == offs[2][0]+1)) {
+			if light && !(k == 0 || k == len(enc)-1 || (len(offs) > 1 && k == offs[1][0]) || (len(offs) > 2 && k == offs[2][0]+1)) {
 				continue
 			}
 			emit(t, ver, fmt.Sprintf("truncate@%d", k), enc[:k])
@@ -296,12 +296,34 @@ func cmdMalformed(n int) {
 		}
 		dests = dests[:0]
 		seen := map[reflect.Type]bool{}
-		for st := 1; st <= nStyles; st++ {
+		for st := 1; st <= 3; st++ {
 			if dt := styleType(kb.t, kb.a, st); !seen[dt] {
 				seen[dt] = true
 				dests = append(dests, dt)
 			}
 		}
+		mutate(kb.t, ver, enc, true)
+	}
+	// (1b) directed: every container codec into pointers to interface types other than interface{} (defined empty interface, interface with
+	// methods), at the top and one level down; the light mutants include the NULL value (truncate@0) and NULL / empty elements
+	for bi, kb := range ifaceBases() {
+		ver := primitive.ProtocolVersion4
+		if bi%4 == 3 {
+			ver = primitive.ProtocolVersion2
+		}
+		enc := encode(kb.t, kb.a, g.plan(kb.t, []*aval{kb.a}, false, true), ver)
+		if enc == nil {
+			continue
+		}
+		dests = dests[:0]
+		seen := map[reflect.Type]bool{}
+		for st := 4; st <= nStyles; st++ {
+			if dt := styleType(kb.t, kb.a, st); !seen[dt] {
+				seen[dt] = true
+				dests = append(dests, dt)
+			}
+		}
+		emit(kb.t, ver, "null", nil)
 		mutate(kb.t, ver, enc, true)
 	}
 	// (2) generated type trees: every mutant into the untyped destination and into one typed destination (the styles and the
